@@ -139,9 +139,12 @@ Definition circ_pnames (c : circ) : list string := List.concat (map (fun m => Li
 Fixpoint op_invertible (o : op) : bool :=
   match o with
   | OLeaf l => isnil (lmk l) && isnil (lcs l)
-  | OSub c f => match reps f with
-                | RInt n => if 0 <? n then forallb (fun m => forallb op_invertible m) c else true
-                | RSym _ _ => true
+  | OSub c f => match until f with
+                | Some _ => false         (* a repeat_until loop is never inverted, whatever its body holds *)
+                | None => match reps f with
+                          | RInt n => if 0 <? n then forallb (fun m => forallb op_invertible m) c else true
+                          | RSym _ _ => true
+                          end
                 end
   end.
 
